@@ -52,6 +52,7 @@ Definition run_rec := (list nat * out)%type.
 Inductive c03_case :=
 | Gen (d : dfa_data) (input : list N) (runs : list run_rec)
 | Prod (which : N) (input : list N) (table : list (list N * option N)) (runs : list run_rec)
+       (steps : option (list nat))   (* reader position after each decode() that returned an event, whole stream in one reader *)
 | Utf8 (input : list N) (runs : list run_rec).
 
 Fixpoint split_by (cuts : list nat) (s : list N) : list (list N) :=
@@ -84,6 +85,54 @@ Section Inst.
       let spec := spec_run input in
       forallb (fun r : run_rec => cuts_ok (fst r) input && out_eqb spec (snd r)) runs ).
 End Inst.
+
+(* Reader positions.  `decode` is called on one reader holding the whole stream until it returns
+   None; after each returned event the reader position is recorded.  This makes the bytes consumed by
+   ITEMS observable (their spans are not part of the events): model = the `rest` returned by the
+   model's decode; specification = from `munch`: token k starting at offset o_k is decided when the
+   automaton stops, first_stop bytes after o_k, and bytes already read are never read again. *)
+Definition olist_eqb (a b : option (list nat)) : bool :=
+  match a, b with
+  | Some x, Some y => list_eqb Nat.eqb x y
+  | None, None => true
+  | _, _ => false
+  end.
+
+Section Steps.
+  Variable d : dfa.
+  Context {Item : Type}.
+  Variable decode_item : N -> list N -> option Item.
+
+  Fixpoint model_steps_aux (fuel : nat) (s : st N Item) (input : list N) (total : nat) : option (list nat) :=
+    match fuel with
+    | O => None
+    | S f =>
+        match decode N Item (d_start d) (d_delta d) (d_accepting d) (d_terminal d) decode_item s input with
+        | Ok (s', Some _, rest) =>
+            match model_steps_aux f s' rest total with
+            | Some l => Some ((total - length rest)%nat :: l)
+            | None => None
+            end
+        | Ok (_, None, _) => Some []
+        | _ => None
+        end
+    end.
+  Definition model_steps (input : list N) : option (list nat) :=
+    model_steps_aux (length input + 3) (init (d_start d)) input (length input).
+
+  Fixpoint spec_steps_aux (toks : list (tok Item)) (s : list N) (off prev : nat) : list nat :=
+    match toks with
+    | [] => []
+    | t :: r =>
+        let n := match first_stop N (d_start d) (d_delta d) (d_accepting d) (d_terminal d) s with
+                 | Some n => n | None => O end in
+        let p := Nat.max prev (off + n) in
+        p :: spec_steps_aux r (skipn (length (span t)) s) (off + length (span t)) p
+    end.
+  Definition spec_steps (input : list N) : list nat :=
+    spec_steps_aux (fst (munch N Item (d_start d) (d_delta d) (d_accepting d) (d_terminal d) decode_item input))
+                   input 0 0.
+End Steps.
 
 (* Gen: items are (pattern index, matched bytes); patterns registered as literal items carry no bytes *)
 Definition gen_item (d : dfa) (q : N) (buf : list N) : option (N * list N) :=
@@ -153,9 +202,11 @@ Definition c03_check (c : c03_case) : bool * bool :=
       let d := compile dd in
       let '(a, h) := check_runs d (gen_item d) gen_render input runs in
       (data_ok dd && a, h)
-  | Prod which input table runs =>
+  | Prod which input table runs steps =>
       let d := if which =? 0 then event_dfa else command_dfa in
-      check_runs d (prod_item table) prod_render input runs
+      let '(a, h) := check_runs d (prod_item table) prod_render input runs in
+      (a && olist_eqb (model_steps d (prod_item table) input) steps,
+       h && olist_eqb (Some (spec_steps d (prod_item table) input)) steps)
   | Utf8 input runs =>
       ( forallb (fun r : run_rec => out_eqb (u8_model_run input (fst r)) (snd r)) runs,
         let spec := Some (u8_spec (length input) input) in
